@@ -299,6 +299,7 @@ pub fn by_family(fam: &str, seed: u64) -> Scenario {
         "concBc" => conc_bc(seed),
         "faultA" => fault_a(seed),
         "abuseB" => abuse_b(seed),
+        "shutdownBs" => shutdown_bs(seed),
         "goawayBc" => goaway_bc(seed),
         "shutdownA" => shutdown_a(seed),
         _ => mix_a(seed, false),
@@ -1044,5 +1045,57 @@ pub fn abuse_b(seed: u64) -> Scenario {
     }
     s.peer = steps;
     s.drop_sr_when_done = true;
+    s
+}
+
+// Mode Bs: graceful shutdown of the real server while other PING traffic is in flight (C15): the shutdown PING's
+// acknowledgement is delayed, and user pings / stray PING ACKs arrive in between; streams in flight must drain,
+// then the connection must close.
+pub fn shutdown_bs(seed: u64) -> Scenario {
+    let mut rng = StdRng::seed_from_u64(seed ^ 0x5D0_B5);
+    let mut s = Scenario::default();
+    s.name = format!("shutdownBs-{}", seed);
+    s.mode = "Bs".into();
+    s.sched.seed = seed;
+    s.peer_cfg.ack_settings = true;
+    s.peer_cfg.ack_ping = true;
+    s.peer_cfg.grant = "all".into();
+    let hdr = |sid: u32, eos: bool| PeerStep::Headers { sid, hid: 0, fields: vec![], eos, frag: 0, huff: false, status: 0, req: true, method: "POST".into(), tag: sid };
+    let mut steps = vec![];
+    let nstreams = rng.gen_range(0..3u32);
+    let open_body = rng.gen_bool(0.5);
+    for i in 0..nstreams {
+        steps.push(hdr(1 + 2 * i, !(open_body && i == 0)));
+    }
+    let delay = rng.gen_bool(0.7);
+    if delay {
+        steps.push(PeerStep::Auto { ack_settings: None, ack_ping: Some(false), grant: None, respond: None });
+    }
+    steps.push(PeerStep::WaitQ); // q1: env graceful_shutdown happens here
+    steps.push(PeerStep::WaitQ); // q2
+    match rng.gen_range(0..4) {
+        0 => steps.push(PeerStep::Ping { ack: true, pl: rng.gen() }),          // stray acknowledgement
+        1 => steps.push(PeerStep::Ping { ack: false, pl: rng.gen() }),         // a ping of the peer's own
+        2 => {
+            steps.push(PeerStep::Ping { ack: true, pl: rng.gen() });
+            steps.push(PeerStep::Ping { ack: true, pl: rng.gen() });
+        }
+        _ => {}
+    }
+    if rng.gen_bool(0.3) {
+        steps.push(hdr(1 + 2 * nstreams, true)); // a new request after the first GOAWAY: still legal until the final one
+    }
+    steps.push(PeerStep::Auto { ack_settings: None, ack_ping: Some(true), grant: None, respond: None });
+    steps.push(PeerStep::WaitQ);
+    if open_body && nstreams > 0 {
+        steps.push(PeerStep::Data { sid: 1, n: 10, eos: true, pad: None });
+    }
+    steps.push(PeerStep::WaitQ);
+    s.peer = steps;
+    s.srv.push(SrvProg { ops: vec![SendOp::Response { status: 200, hid: 0, eos: true }], read: ReadPol::default(), note: String::new() });
+    if rng.gen_bool(0.4) {
+        s.env.push(EnvStep { at: "step".into(), n: rng.gen_range(4..12), op: EnvOp::Ping { ep: 1 } });
+    }
+    s.env.push(EnvStep { at: "q".into(), n: 1, op: EnvOp::Conn { ep: 1, op: "graceful_shutdown".into(), n: 0 } });
     s
 }
